@@ -323,6 +323,9 @@ class workq:
                 if ev.successful():
                     self.pushjob(ev.value)
                 raise
+            if j.done:
+                # finished (killed, timed out) between hand-off and wake-up
+                return self.pop(channels)
 
         return j
 
